@@ -954,8 +954,8 @@ class AggregateAssignmentMatrixGenerator:
 def _validate_matrix(matrix: np.ndarray, max_conn_mat: np.ndarray, src_node_settings: np.ndarray,
                      tgt_node_settings: np.ndarray, src_n_override: np.ndarray, tgt_n_override: np.ndarray,
                      max_src: np.ndarray, max_tgt: np.ndarray) -> bool:
-    # Check repeated or blocked connections
-    if np.any(matrix > max_conn_mat):
+    # Check repeated or blocked connections (a number of connections is never negative)
+    if np.any(matrix > max_conn_mat) or np.any(matrix < 0):
         return False
 
     # Check source connections
